@@ -441,6 +441,14 @@ func C05(r *core.Run) {
 		return px
 	}
 
+	// the progress bounds below are for chunks, not for the start-up of three agent processes on a busy machine
+	for d := time.Now().Add(60 * time.Second); time.Now().Before(d) && (px.Lists() == 0 || px2.Lists() == 0 || px3.Lists() == 0); {
+		time.Sleep(10 * time.Millisecond)
+	}
+	if px.Lists() == 0 || px2.Lists() == 0 || px3.Lists() == 0 {
+		r.Broken("C05: an agent made no pending-list call within 60 s of its start")
+		r.Finish(1)
+	}
 	rng := r.Rand("c05")
 	n := r.Pick(48, 640)
 	sizes := []int{1, 2, 100, 4095, 4096, 4097, 32 << 10, 1 << 20}
